@@ -43,6 +43,11 @@ def shaped(g):
         sp = g.pair(kinds=["none", "misconv", "conv", "same"], names=["ident"], n=(4, 6), embeds=0.3, func_over=0.0, mapper_idle=0.0)
         out.append(("companion-first", mapgen.add_companion(g.rng, sp, disabled=dis)))
     out.append(("universe-types", g.pair(kinds=["same", "oneway", "none"], names=["ident"], n=(5, 6))))
+    # cyclic embedding: the pairs are those of the finite unfolding
+    for side in ("src", "dest"):
+        for v in ("self", "mutual", "inner"):
+            out.append(("cyclic-embed-%s-%s" % (side, v), g.pair(selfembed=1.0, selfembed_side=side, selfembed_variant=v, embeds=1.0, deep=0.7,
+                                                               kinds=["same", "conv"], names=["ident"], n=(3, 5))))
     # finding regions
     out.append(("multi", g.pair(multi=1.0, n=(1, 2), names=["ident"])))
     out.append(("namedscalar", g.pair(kinds=["namedscalar", "same"], n=(2, 3), names=["ident"])))
